@@ -100,7 +100,7 @@ class Gen:
                                 (1, {"v": "none"}), (1, {"v": "int", "i": 0}),
                                 (1, {"v": "list", "n": 0})])
         if role == "repeat" and self.o.get("badvalues") and ch.coin(0.12):
-            return {"v": "baditer", "n": ch.choose(3),
+            return {"v": ch.pick(["baditer", "badseq"]), "n": ch.choose(3),
                     "cls": ch.pick(UNCAUGHT_NAMES + CAUGHT_NAMES)}
         if role in ("content", "replace", "attr", "interp", "part",
                     "define") and self.o.get("badvalues") and ch.coin(0.08):
@@ -233,6 +233,7 @@ class Gen:
                         parts.append(["lit", "-"])
                 if ch.coin(0.15):
                     parts = [["expr", self.probe("part")]]
+                self._repeat_part(parts)
                 return {"k": "string", "parts": parts}
             if t == 3:
                 return {"k": "python", "e": self.probe(role)}
@@ -256,7 +257,17 @@ class Gen:
                 parts.append(["expr", e])
             else:
                 parts.append(["sexpr", self.probe("sinterp")])
+        self._repeat_part(parts)
         return {"t": "text", "parts": parts}
+
+    def _repeat_part(self, parts: list) -> None:
+        """Sometimes the same ${...} text stands twice in one interpolated
+        string: each occurrence is an evaluation of its own."""
+        exprs = [p for p in parts if p[0] == "expr"]
+        if exprs and self.ch.coin(0.12):
+            p = self.ch.pick(exprs)
+            parts.append(["lit", "~"])
+            parts.append(["expr", self._retwin(p[1])])
 
     def new_el(self) -> dict:
         ch = self.ch
@@ -396,12 +407,12 @@ class Gen:
                     ["'&lt;'", "'a;;b'", "'&amp;x'"])}])
             for i in range(1 + ch.choose(2)):
                 el["attributes"].append(["d%d" % i, self.expr("attr")])
-            if not has_on_error and el["static"] and ch.coin(0.3):
+            if el["static"] and ch.coin(0.3):
                 # override the *last* static attribute (keeps clause order
                 # and output order the same)
                 el["attributes"].append([el["static"][-1][0],
                                          self.expr("attr")])
-        if not has_on_error and el["static"] and ch.coin(0.2) and budget_left:
+        if el["static"] and ch.coin(0.2) and budget_left:
             name, parts = el["static"][ch.choose(len(el["static"]))]
             if not any(a[0] == name for a in el["attributes"]):
                 parts.append(["expr", self.probe("interp")])
